@@ -203,7 +203,7 @@ def build_catalogue() -> list[Entry]:
     add("delay:10", lambda K: ops.delay(10, K.sched), "time", VA, CS, "core")
     add("delay:0", lambda K: ops.delay(0, K.sched), "time", VA, CS)
     add("delay_subscription:15", lambda K: ops.delay_subscription(15, K.sched), "time", VA, CS)
-    add("delay_with_mapper", lambda K: ops.delay_with_mapper(None, K.p("duration.d", lambda x, K=K: K.timer("d", 15))), "time", VA, CS)
+    add("delay_with_mapper", lambda K: ops.delay_with_mapper(K.p("duration.d", lambda x, K=K: K.timer("d", 15))), "time", VA, CS)
     add("delay_with_mapper:subdelay", lambda K: ops.delay_with_mapper(K.timer("sd", 5), K.p("duration.d", lambda x, K=K: K.timer("d", 15))), "time", VA, CS)
     add("debounce:15", lambda K: ops.debounce(15, K.sched), "time", VA, CS, "core")
     add("throttle_with_timeout:5", lambda K: ops.throttle_with_timeout(5, K.sched), "time", VA, CS)
